@@ -9,7 +9,7 @@ RULE = ("unit cases: the real DownloadNode + Segmentation with 1-4 concurrent re
         "BadSegmentNumber), consumer pause/resume/stop, wrong segment-size guesses, every queued eventual-send run one at a time, then driven "
         "to quiescence; non-trivial = at least one failed segment or a stop/pause; grid cases: real downloads of files with a wrong crypttext "
         "hash leaf and/or an injected decode failure, deleted/corrupted shares, erroring servers and servers whose connection is lost "
-        "(get_buckets fails at once with DeadReferenceError, an already-failed Deferred) leaving fewer than k shares, 2-5 reads (sequential and concurrent) on "
+        "(get_buckets fails at once with DeadReferenceError, an already-failed Deferred) leaving fewer than k shares, files whose UEB is longer than the downloader's speculative 2 KiB read (one extra field of 1.5-20 kB), 2-5 reads (sequential and concurrent) on "
         "the same node; non-trivial = a failing segment followed by a further read on the node")
 META = {
     "title": "Immutable reads always terminate",
@@ -242,6 +242,8 @@ def gen_grid_case(r):
             delete = sorted(set(delete + r.sample(range(n), r.choice([n, n - k + 1, 1]))))
     return {"k": k, "n": n, "servers": servers, "segsize": seg, "size": size, "badleaf": badleaf, "decode_fail": decode_fail,
             "reads": reads, "concurrent": concurrent, "plan": plan, "delete": delete, "truncate": truncate, "header": header, "sync_dead": sync_dead,
+            # a UEB longer than the downloader's speculative 2 KiB read (one extra, legal field): around the boundary and far beyond
+            "big_ueb": r.choice([0, 0, 0, 0, 1500, 1700, 1750, 1800, 2048, 3000, 5000, 20000]),
             "threads": r.random() < 0.15, "seed": r.getrandbits(30)}
 
 
@@ -255,7 +257,12 @@ def run_grid_case(case):
     outcomes = []
     with G.Grid(num_servers=case["servers"], k=case["k"], n=case["n"], happy=1, max_segment_size=case["segsize"], seed=case["seed"],
                 timeout=case.get("timeout", 15), threads=case.get("threads", False)) as g:
-        cap = SQ.bad_upload(g, data, case["badleaf"]) if case["badleaf"] else g.run(g.upload(data, convergence=b"c46"))
+        if case.get("big_ueb"):
+            cap = SQ.upload_with_big_ueb(g, data, case["big_ueb"], case["badleaf"], convergence=b"c46")
+        elif case["badleaf"]:
+            cap = SQ.bad_upload(g, data, case["badleaf"])
+        else:
+            cap = g.run(g.upload(data, convergence=b"c46"))
         for shnum in case["delete"]:
             g.delete_shares(cap, shnums=[shnum])
         import struct
@@ -316,7 +323,9 @@ def judge_grid_case(ctx, case, outcomes, data):
         want = data[off:] if sz is None else data[off:off + sz]
         if st in ("hung", "timeout"):
             kind = "read-never-completes"
-            if case.get("sync_dead") and st == "hung":
+            if case.get("big_ueb") and st == "hung" and not case.get("sync_dead") and not case["badleaf"] and not case["decode_fail"]:
+                kind = "read-hangs-with-long-ueb"
+            elif case.get("sync_dead") and st == "hung":
                 kind = "read-hangs-after-lost-connection"
             elif case["badleaf"] or case["decode_fail"]:
                 kind = "read-never-completes-after-failed-segment"
